@@ -136,7 +136,8 @@ class RefEncoder:
         else:
             eff = effective_meta(own, cfg)
         ts = eff.get('marshal_date_time_as') == 'TIMESTAMP'
-        keyf = KEY_FUNCS[eff.get('key_transform_with_dump') or 'CAMEL']
+        # a subclass may carry `key_funcs` (same table shape) that also covers non-canonical field names (C03)
+        keyf = getattr(self, 'key_funcs', KEY_FUNCS)[eff.get('key_transform_with_dump') or 'CAMEL']
         sd_on = skip_defaults if skip_defaults is not None else bool(eff.get('skip_defaults') or eff.get('skip_defaults_if'))
         out = {}
         for f in info['fields']:
